@@ -100,6 +100,14 @@ def spec_accepts(ptype, cfg, v, route='inst'):
 
     if ptype == 'Parameter':
         return ACCEPT
+    if ptype == 'Filename':
+        import os
+        import pathlib
+        if not isinstance(v, (str, pathlib.Path)):
+            return REJECT
+        if os.path.isabs(str(v)):
+            return _b(os.path.isfile(str(v)))
+        return _b(any(os.path.isfile(os.path.join(sp, str(v))) for sp in cfg['_search_paths']))
     if ptype == 'String':
         if not isinstance(v, str):
             return REJECT
